@@ -272,7 +272,14 @@ class C12(Property):
             '(cross-instance state); multi-step families: timed-out call followed by a different call, calls '
             'on pre-buffered data (after peek / surplus) with the window boundary inside the buffer; fault cases '
             'where the wrapped socket raises BlockingIOError (E events) instead of timing out; nsr with size prefixes '
-            'only int() accepts (whitespace, sign incl. negative, underscores) and near misses.')
+            'only int() accepts (whitespace, sign incl. negative, underscores) and near misses. Round 3, generated right '
+            'after the configuration cases: dx = ONE BufferedSocket over one scripted socket used in both directions '
+            '(receive-side and send-side calls interleaved, all four observables - result, getrecvbuffer(), '
+            'getsendbuffer(), wire - after every call): exhaustive streams <= 3 bytes x chunkings x one fault of each '
+            'kind (socket.timeout T, deadline expiry W, BlockingIOError E) in every gap x 7 send scripts x 3 interleaved '
+            'families, plus random interleavings of the rx/tx random families; recv/send/sendall with a flags argument '
+            '(0 and non-zero); nonblocking mode (timeout=0.0) for fault cases; return values that are not immutable '
+            'bytes are re-read at the end of the case. The scripted clock jumps as a function of socket events only.')
     ASSUMPTIONS = [
         'the wrapped socket returns b"" from recv only at end of stream, never more than the requested bytes, and '
         'send returns how many bytes it took (scripted FakeSock in harness/bv/props/c12.py)',
@@ -280,7 +287,11 @@ class C12(Property):
         'deadline checks under a scripted clock substituted for boltons.socketutils.time (time, monotonic, '
         'perf_counter, their _ns variants, sleep; timeout=1000.0) whose value depends on the socket events only, '
         'not on the number of clock reads; the real clock never decides anything',
-        'recvsize >= 1; sizes and maxsize are non-negative ints; flags=0',
+        'recvsize >= 1; sizes and maxsize are non-negative ints; non-zero flags are outside the statement: a call '
+        'refused with ValueError must leave every byte in place, a call that takes them is held to the contract of '
+        'the plain call (the scripted socket ignores flags)',
+        'where on the send side the code compares the clock with its deadline is left free: a W event of a send '
+        'script is presented to the model as a deadline event only if a deadline check of the code fired for it',
         'read_ns size prefixes go through int(): the model of int(bytes) (parsePyInt) is compared with this '
         'interpreter\'s int() on every byte string of length <= 4 over a 12-letter alphabet on every run',
         'single-threaded use (the RLocks are not exercised)',
